@@ -62,7 +62,7 @@ def _strip_comments(text: str) -> str:
 
 def forbidden_scan() -> list[str]:
     bad = []
-    for p in sorted(THEORIES.rglob("*.v")):
+    for p in sorted(THEORIES.rglob("*.v")) + sorted((COQ / "gen_proofs").glob("*.v")):
         src = _strip_comments(p.read_text())
         for m in FORBIDDEN.finditer(src):
             bad.append(f"{p.relative_to(COQ)}: {m.group(0)}")
@@ -362,6 +362,29 @@ def run_property(mod, tier: str, seed: int, replay: str | None = None) -> int:
         if forb:
             res.notes.append("forbidden constructs: " + "; ".join(forb[:10]))
 
+        # ---- 1b. translator tie (DESIGN.md §2.2b): for the small decision kernels the Gallina definitions are
+        # REGENERATED from /repo's current source and the committed proof scripts coq/gen_proofs/*.v re-prove
+        # "generated = model" and re-state the property theorems for the generated definitions
+        tr, tr_mine, tr_done = None, [], []
+        scripts = getattr(mod, "TRANSLATE", None)
+        if scripts and ok:
+            from harness import translate
+            try:
+                tr = translate.run(workdir / "translate")
+                by_script = translate.script_obligations(COQ / "gen_proofs")
+                tr_mine = [n for sc in scripts for n in by_script.get(sc, [])]
+                tr_done = [n for n in tr_mine if n in tr["discharged"]]
+                if tr["errors"] or len(tr_done) != len(tr_mine) or not tr_mine:
+                    proof_broken = True
+                    res.notes.append("translator tie broken: " + "; ".join(
+                        [e[:300] for e in tr["errors"][:3]] + [f"{n}: {tr['assumptions'].get(n, '?')[:200]}"
+                                                               for n in tr_mine if n not in tr_done][:6]))
+            except Exception as e:                                   # noqa: BLE001 - fail closed
+                proof_broken = True
+                tr = {"errors": [f"translate.run crashed: {type(e).__name__}: {e}"], "assumptions": {},
+                      "generated": {}, "abstraction_assumptions": [], "seconds": 0}
+                res.notes.append(tr["errors"][0][:400])
+
         # ---- 2. cases (corpus first, then generated streams) and implementation run
         hashseeds = getattr(mod, "HASHSEEDS", {"quick": ["0"], "thorough": ["0"]})[tier]
         streams = []
@@ -478,7 +501,8 @@ def run_property(mod, tier: str, seed: int, replay: str | None = None) -> int:
                     "hashseed": all_hs[i], "seed": seed})
                 res.violations.append((f"correspondence broken on {len(unexplained)} case(s)", p, False))
         if (proof_broken or corr_broken) and not res.violations:
-            bad_thms = [n for n in thms if n not in discharged] or ["<development>"]
+            bad_thms = ([n for n in thms if n not in discharged] + [n for n in tr_mine if n not in tr_done]
+                        or (["<translation of /repo/src/serif>"] if tr and tr["errors"] else ["<development>"]))
             p = write_replay(pid, "proof", {
                 "property": pid, "obligation": "proof obligations / case evaluation",
                 "failing": bad_thms, "assumptions": assum, "notes": res.notes})
@@ -508,14 +532,22 @@ def run_property(mod, tier: str, seed: int, replay: str | None = None) -> int:
         ev = {
             "property_id": pid, "tier": tier, "seed": seed, "level": "proof",
             "coverage": {
-                "obligations": len(thms), "discharged": len(discharged),
+                "obligations": len(thms) + len(tr_mine), "discharged": len(discharged) + len(tr_done),
                 "theorems": thms,
+                "translated": ({"scripts": scripts, "obligations": tr_mine, "discharged": tr_done,
+                                "generated_sha1": tr.get("generated"), "functions": tr.get("functions"),
+                                "errors": tr["errors"], "seconds": tr.get("seconds"),
+                                "assumptions_of_the_abstraction": tr.get("abstraction_assumptions")}
+                               if tr else None),
                 "checker_cmd": f"make -C coq -j{NCPU} (coqc 8.16.1, full .vo build) ; coqc Print Assumptions on Props/{pid}.v",
                 "trusted_base": [
                     "Coq 8.16.1 kernel + vm_compute (no native_compute, no extraction)",
                     "hand-written Gallina model tied to /repo by the correspondence check below",
                     "harness: generators, impl observer, Coq term printers (harness/props/%s.py)" % modname,
-                ] + tb + list(getattr(mod, "ASSUMED", [])),
+                ] + (["translator harness/translate.py (fail-closed Python-ast -> Gallina for the decision kernels) and "
+                      "its abstraction of Python values (Base/GenPrelude.v)"] if tr else [])
+                + tb + [f"{n_}: " + " ".join(tr["assumptions"].get(n_, "?").split()) for n_ in tr_mine]
+                + list(getattr(mod, "ASSUMED", [])),
                 "coqchk": (chk["summary"] if chk else "not run in the quick tier"),
                 "evaluations": len(all_cases),
                 "distinct_nontrivial": len(nontriv),
@@ -541,8 +573,11 @@ def run_property(mod, tier: str, seed: int, replay: str | None = None) -> int:
             "violations": len(res.violations),
         }
         if not replay:
-            (VERIF / "evidence").mkdir(exist_ok=True)
-            (VERIF / "evidence" / f"{pid}.json").write_text(json.dumps(ev, indent=1, default=str))
+            # evidence is only ever written by runs against /repo itself (SERIF_REPO=<scratch worktree> is how
+            # mutants are tried; those runs leave their numbers under work/)
+            evdir = (VERIF / "evidence") if str(REPO) == "/repo" else (WORK / "evidence-other-tree")
+            evdir.mkdir(parents=True, exist_ok=True)
+            (evdir / f"{pid}.json").write_text(json.dumps(ev, indent=1, default=str))
 
         for kid, what in res.known:
             print(f"KNOWN-FINDING: property={pid} {kid}: {what}")
@@ -551,7 +586,7 @@ def run_property(mod, tier: str, seed: int, replay: str | None = None) -> int:
             print(f"# {pid}: {what}")
             print(f"VIOLATION property={pid} replay={p}{tail}")
         print(f"# {pid} {tier}: {len(all_cases)} cases, {len(nontriv)} distinct non-trivial, "
-              f"{len(discharged)}/{len(thms)} theorems, {len(disagree)} model/impl disagreements, "
+              f"{len(discharged) + len(tr_done)}/{len(thms) + len(tr_mine)} theorems, {len(disagree)} model/impl disagreements, "
               f"{len(oracle_fail)} oracle failures, {ev['wall_s']} s")
         return 1 if res.violations else 0
     finally:
